@@ -98,6 +98,11 @@ type World struct {
 	Arity                            map[string]int // tokens per policy / role definition
 	Matcher                          string
 	Watcher                          persist.Watcher
+	// SharedBatch, when set, is the one request batch every BatchEnforce call of this world passes: callers
+	// that share a request value between goroutines (a constant, a cached batch) are ordinary callers
+	SharedBatch [][]interface{}
+	// SubjectOf turns a user name into the request's subject value (JSON text for the JSON world)
+	SubjectOf func(user string) interface{}
 }
 
 func pickS(rng *rand.Rand, xs []string) string { return xs[rng.Intn(len(xs))] }
@@ -131,6 +136,9 @@ func (w *World) rule(rng *rand.Rand, ptype string) []string {
 
 func (w *World) request(rng *rand.Rand) []interface{} {
 	req := []interface{}{pickS(rng, w.Users)}
+	if w.SubjectOf != nil {
+		req[0] = w.SubjectOf(req[0].(string))
+	}
 	if w.HasDomains {
 		req = append(req, pickS(rng, w.Domains))
 	}
@@ -230,7 +238,11 @@ func (w *World) Args(m Method, rng *rand.Rand) []reflect.Value {
 				}
 			}
 		case "[][]interface{}":
-			add([][]interface{}{w.request(rng), w.request(rng)})
+			if w.SharedBatch != nil {
+				add(w.SharedBatch)
+			} else {
+				add([][]interface{}{w.request(rng), w.request(rng)})
+			}
 		case "int":
 			add(0)
 		case "interface{}":
